@@ -136,6 +136,13 @@ def make_view(ds, case, seed='case', call=None):
   call = call or case['call']
   if call == 'hparams':
     return ds.shuffle_repeat_batch(fedjax.ShuffleRepeatBatchHParams(**kw))
+  if call == 'positional':
+    # the hparams dataclass built positionally, in the order its docstring
+    # lists the fields (batch_size, num_epochs, num_steps, drop_remainder,
+    # seed, skip_shuffle)
+    return ds.shuffle_repeat_batch(fedjax.ShuffleRepeatBatchHParams(
+        kw['batch_size'], kw['num_epochs'], kw['num_steps'], kw['drop_remainder'],
+        kw['seed'], kw['skip_shuffle']))
   if call == 'override':
     # Documented form: an hparams object overridden by keyword arguments.  The
     # object holds DIFFERENT values for every field; all of them are overridden,
@@ -425,7 +432,7 @@ SEEDS = st.one_of(st.sampled_from(range(21)),
                   st.sampled_from([1, 0, 2**31 - 1, 2**31, 2**32 - 1, 12345]),
                   st.integers(0, 2**32 - 1),
                   st.integers(2**16, 2**32 - 1))
-CALLS = ['kwargs', 'hparams', 'defaults', 'override', 'partial_override', 'replace']
+CALLS = ['kwargs', 'hparams', 'defaults', 'override', 'partial_override', 'replace', 'positional']
 
 
 @functools.lru_cache(maxsize=None)
@@ -444,7 +451,10 @@ def _bounds(tier):
 
 
 def draw_size(draw, nmax):
-  kind = pick(draw, ['full', 'full', 'small', 'tiny'])
+  kind = pick(draw, ['full', 'full', 'small', 'tiny'] * 3 + ['large'])
+  if kind == 'large':
+    # beyond what an 8-bit (rarely: a 16-bit) example index can address
+    return pick(draw, [257, 300, 511, 1000, 257, 300, 66000])
   if kind == 'full':
     return pick(draw, range(2, nmax + 1))
   if kind == 'small':
